@@ -2,6 +2,7 @@ package main
 
 import (
 	"context"
+	"errors"
 	"fmt"
 	"io"
 	"log/slog"
@@ -9,19 +10,24 @@ import (
 	"strings"
 	"sync"
 	"time"
+	"verif/harness/lib"
 
 	"google.golang.org/protobuf/types/known/timestamppb"
 	"reduction.dev/reduction-protocol/handlerpb"
 	"reduction.dev/reduction/batching"
-	"reduction.dev/reduction/partitioning"
+	"reduction.dev/reduction/clocks"
+	"reduction.dev/reduction/config"
+	"reduction.dev/reduction/connectors"
 	"reduction.dev/reduction/connectors/embedded"
+	"reduction.dev/reduction/jobs"
+	"reduction.dev/reduction/partitioning"
 	"reduction.dev/reduction/proto"
 	"reduction.dev/reduction/proto/jobpb"
+	"reduction.dev/reduction/proto/snapshotpb"
 	"reduction.dev/reduction/proto/workerpb"
 	"reduction.dev/reduction/util/murmur"
 	"reduction.dev/reduction/workers/operator"
 	"reduction.dev/reduction/workers/sourcerunner"
-	"verif/harness/lib"
 )
 
 func init() { register("C05", propC05) }
@@ -163,8 +169,8 @@ func propC05() *lib.Prop {
 	specialN := []int{1, 2, 3, 7, 256, 65535, 70000}
 	return &lib.Prop{
 		ID:   "C05",
-		Corr: "Model/KeySpace.lean+Model/Murmur.lean ↔ partitioning, util/murmur, key encoders, OwnsKey, operatorCluster.routeEvent",
-		Rule: "cases = blocks of ops over (kgc,n) configurations (exhaustive small grid + boundary values) and random/structured keys; non-trivial = block contains a configuration where n does not divide kgc or n > kgc, or a key of length not a multiple of 4",
+		Corr: "Model/KeySpace.lean+Model/Murmur.lean+Model/Assembly.lean ↔ partitioning, util/murmur, key encoders, OwnsKey, operatorCluster.routeEvent, jobs.Registry.NewAssembly + Assembly.Deploy + SourceRunner.HandleDeploy + Operator.HandleDeploy",
+		Rule: "cases = blocks of ops over (kgc,n) configurations (exhaustive small grid + boundary values) and random/structured keys; non-trivial = block contains a configuration where n does not divide kgc or n > kgc, or a deployment (registry → Deploy → HandleDeploy on real runners and operators)",
 		NumCases: func(tier string) int {
 			if tier == "thorough" {
 				return 3000
@@ -193,12 +199,31 @@ func propC05() *lib.Prop {
 			cs = append(cs, c)
 			// MurmurHash3-32 reference vectors (the property names the function): expected value is part of the op
 			v := lib.Case{Header: "M C05", Tags: []string{"vectors"}}
-			for _, kv := range [][3]string{{"-", "0", "0"}, {"-", "1", "1364076727"}, {"68656c6c6f", "0", "613153351"},
-				{"ffffffff", "0", "1982413648"}, {"21436587", "0", "4116402539"}, {"214365", "0", "2118813236"}, {"2143", "0", "2700587130"}, {"21", "0", "1919294708"},
-				{"00000000", "0", "593689054"}, {"48656c6c6f2c20776f726c6421", "1234", "4210478515"}, {"54686520717569636b2062726f776e20666f78206a756d7073206f76657220746865206c617a7920646f67", "0", "776992547"}} {
+			for _, kv := range c05Vectors {
 				v.Ops = append(v.Ops, fmt.Sprintf("hashvec %s %s %s", kv[0], kv[1], kv[2]))
 			}
 			cs = append(cs, v)
+			// the uint16 lookup-table path at the largest key-group counts (the driver builds the same table once per block)
+			fr := lib.NewRng(20250926)
+			for _, cfg := range [][2]int{{65535, 7}, {65535, 65535}, {65535, 70000}, {65534, 300}, {32769, 2}, {4097, 4096}} {
+				b := lib.Case{Header: "M C05", Tags: []string{"boundary", "bigtable"}}
+				for j := 0; j < 40; j++ {
+					b.Ops = append(b.Ops, fmt.Sprintf("ri %d %d %s", cfg[0], cfg[1], lib.Hex(c05Key(fr))))
+				}
+				b.Ops = append(b.Ops, fmt.Sprintf("partition %d %d", cfg[0], min(cfg[1], 300)))
+				cs = append(cs, b)
+			}
+			// deployment-level witnesses: ids registered out of order / twice / deregistered, more nodes than tasks,
+			// more operators than key groups, not enough nodes
+			d := lib.Case{Header: "M C05", Tags: []string{"deploy", "uneven"}}
+			d.Ops = append(d.Ops,
+				"deploy 7 3 o6f7033,s7339,o6f7031,o6f7032,o6f7031,s7338,s7337 68656c6c6f,-,21",
+				"deploy 256 2 o6f702d3130,o6f702d32,o6f702d31,s61,s62,s63,O6f702d31 68656c6c6f,00,ff,757365722d31",
+				"deploy 2 4 o61,o62,o63,o64,o65,s61,s62,s63,s64 68656c6c6f,-,21,2143",
+				"deploy 65535 3 o7a,o79,o78,s31,s32,s33 68656c6c6f,21436587",
+				"deploy 16 3 o61,o62,s61,s62,s63 21",
+				"deploy 16 2 o61,o62,o63,O62,s61,s62,S61 21")
+			cs = append(cs, d)
 			return cs
 		},
 		Gen: func(r *lib.Rng, tier string, i int) lib.Case {
@@ -270,6 +295,9 @@ func propC05() *lib.Prop {
 						k2 := lib.Pick(r, []int{kgc, kgc, 4, 16, 256})
 						c.Ops = append(c.Ops, fmt.Sprintf("redeploy %d %d %d %d %d %s", k2, n1, r.Intn(n1), n2, r.Intn(n2), hk))
 					}
+					if r.Chance(1, 4) {
+						c.Ops = append(c.Ops, c05GenDeploy(r, lib.Pick(r, []int{kgc, kgc, 2, 3, 256}), hk))
+					}
 					c.Ops = append(c.Ops, fmt.Sprintf("subjkey %d %s", kgc, hk))
 					if n <= 64 {
 						c.Ops = append(c.Ops, fmt.Sprintf("ownsroute %d %d %s", kgc, n, hk))
@@ -315,6 +343,12 @@ func propC05() *lib.Prop {
 					out = append(out, lib.Hex(ts.VerifEncodeTimerKey(lib.UnHex(f[2]), time.Unix(0, int64(t)))))
 				case "redeploy":
 					out = append(out, c05Redeploy(at(1), at(2), at(3), at(4), at(5), lib.UnHex(f[6])))
+				case "deploy":
+					var keys [][]byte
+					for _, h := range strings.Split(f[4], ",") {
+						keys = append(keys, lib.UnHex(h))
+					}
+					out = append(out, c05Deploy(at(1), at(2), strings.Split(f[3], ","), keys))
 				case "hashvec":
 					out = append(out, strconv.FormatUint(uint64(murmur.Hash(lib.UnHex(f[1]), at(2))), 10))
 				case "partition":
@@ -342,7 +376,7 @@ func propC05() *lib.Prop {
 		},
 		Nontrivial: func(c lib.Case, _ []string) bool {
 			for _, t := range c.Tags {
-				if t == "uneven" || t == "grid" || t == "boundary" {
+				if t == "uneven" || t == "grid" || t == "boundary" || t == "deploy" {
 					return true
 				}
 			}
@@ -351,7 +385,8 @@ func propC05() *lib.Prop {
 	}
 }
 
-// checkPartition evaluates the statement of C05.ranges_partition / ranges_balanced on the real ranges.
+// checkPartition evaluates the statements of C05.ranges_partition / ranges_balanced / keyGroups_partition /
+// ranges_overlaps on the real ranges and the real range predicates.
 func checkPartition(kgc, n int) string {
 	rs := partitioning.NewKeySpace(kgc, n).KeyGroupRanges()
 	if len(rs) != n {
@@ -370,6 +405,29 @@ func checkPartition(kgc, n int) string {
 	}
 	if maxS-minS > 1 {
 		return fmt.Sprintf("unbalanced %d..%d", minS, maxS)
+	}
+	// C05.keyGroups_partition: KeyGroups() of the ranges in order enumerate 0..kgc-1
+	next := 0
+	for i, r := range rs {
+		for _, g := range r.KeyGroups() {
+			if int(g) != next {
+				return fmt.Sprintf("KeyGroups of range %d yields %d, expected %d", i, g, next)
+			}
+			next++
+		}
+	}
+	if next != kgc {
+		return fmt.Sprintf("KeyGroups enumerate %d of %d", next, kgc)
+	}
+	// C05.ranges_overlaps / ranges_disjoint with the code's own Overlaps: true exactly for a non-empty range with itself
+	if n <= 320 {
+		for i, a := range rs {
+			for j, b := range rs {
+				if a.Overlaps(b) != (i == j && a.Size() > 0) {
+					return fmt.Sprintf("Overlaps(range %d %v, range %d %v) = %v", i, a, j, b, a.Overlaps(b))
+				}
+			}
+		}
 	}
 	return "ok"
 }
@@ -443,4 +501,361 @@ func c05Redeploy(kgc, n1, i1, n2, i2 int, key []byte) string {
 		parts = append(parts, fmt.Sprintf("%d,%d/%d/%d/%d", own.Start, own.End, len(all), rg, sg))
 	}
 	return strings.Join(parts, ";")
+}
+
+// ===== deployment level (registry → Assembly.Deploy → HandleDeploy on both sides), reference vectors =====
+
+// c05Vectors: MurmurHash3 x86_32 reference vectors {input hex, seed, expected}; the same list as
+// C05.murmur_vectors / murmur_vectors_long (published vectors + the repository's own test values, every one
+// re-computed with the independent transcription of the reference in c05_murmur_vectors.py).
+var c05Vectors = [][3]string{
+	{"-", "0", "0"}, {"-", "1", "1364076727"}, {"-", "4294967295", "2180083513"},
+	{"68656c6c6f", "0", "613153351"}, {"ffffffff", "0", "1982413648"}, {"21436587", "0", "4116402539"},
+	{"21436587", "1350757870", "593689054"}, {"214365", "0", "2118813236"}, {"2143", "0", "2700587130"}, {"21", "0", "1919294708"},
+	{"00000000", "0", "593689054"}, {"000000", "0", "2247144487"}, {"0000", "0", "821347078"}, {"00", "0", "1364076727"},
+	{"61616161", "2538058380", "1519878282"}, {"616263", "0", "3017643002"}, {"74657374", "0", "3127628307"},
+	{"74657374", "2538058380", "1883996636"}, {"6131", "0", "882153338"}, {"313233343536", "0", "3210799800"},
+	{"61626364656667", "0", "2285673222"},
+	{"48656c6c6f2c20776f726c6421", "1234", "4210478515"}, {"48656c6c6f2c20776f726c6421", "2538058380", "612912314"},
+	{"54686520717569636b2062726f776e20666f78206a756d7073206f76657220746865206c617a7920646f67", "0", "776992547"},
+	{"54686520717569636b2062726f776e20666f78206a756d7073206f76657220746865206c617a7920646f67", "2538058380", "799549133"},
+	{"6162636462636465636465666465666765666768666768696768696a68696a6b696a6b6c6a6b6c6d6b6c6d6e6c6d6e6f6d6e6f706e6f7071", "0", "4002569104"},
+}
+
+// ---- generator ---------------------------------------------------------------------------------------------------
+
+var c05IDPool = []string{"op-1", "op-10", "op-2", "op-20", "a", "B", "b", "Z", "aa", "ab", "2Xy", "10", "9", "~", "é", "node_7", "zz", "0"}
+
+// c05GenDeploy: `deploy <kgc> <taskCount> <registry steps> <keys>`; steps: o<id> / s<id> register an operator / a
+// source runner, O<id> / S<id> deregister (ids hex). Pure.
+func c05GenDeploy(r *lib.Rng, kgc int, firstKey string) string {
+	tc := r.Range(1, 4)
+	if r.Chance(1, 6) {
+		tc = r.Range(5, 7)
+	}
+	pick := func(m int) []string {
+		perm := make([]string, len(c05IDPool))
+		copy(perm, c05IDPool)
+		for i := len(perm) - 1; i > 0; i-- {
+			j := r.Intn(i + 1)
+			perm[i], perm[j] = perm[j], perm[i]
+		}
+		return perm[:m]
+	}
+	extra := func() int {
+		if r.Chance(1, 12) {
+			return -1 // not enough nodes
+		}
+		return r.Intn(3)
+	}
+	var steps []string
+	add := func(reg, dereg string, n int) {
+		ids := pick(max(n, 1))[:max(n, 0)]
+		var mine []string
+		for _, id := range ids {
+			mine = append(mine, reg+lib.Hex([]byte(id)))
+			if r.Chance(1, 5) { // registered again later (heartbeat re-registration)
+				mine = append(mine, reg+lib.Hex([]byte(id)))
+			}
+		}
+		if len(ids) > 0 && r.Chance(1, 5) { // one node leaves, and sometimes comes back
+			id := lib.Pick(r, ids)
+			mine = append(mine, dereg+lib.Hex([]byte(id)))
+			if r.Bool() {
+				mine = append(mine, reg+lib.Hex([]byte(id)))
+			}
+		}
+		// shuffle registrations of this kind while keeping a deregistration after the first registration of its id
+		for i := len(mine) - 1; i > 0; i-- {
+			j := r.Intn(i + 1)
+			if mine[i][:1] == reg && mine[j][:1] == reg {
+				mine[i], mine[j] = mine[j], mine[i]
+			}
+		}
+		steps = append(steps, mine...)
+	}
+	add("o", "O", tc+extra())
+	add("s", "S", tc+extra())
+	// interleave operators' and runners' steps (relative order within a kind is kept)
+	var ops, srs []string
+	for _, s := range steps {
+		if s[0] == 'o' || s[0] == 'O' {
+			ops = append(ops, s)
+		} else {
+			srs = append(srs, s)
+		}
+	}
+	steps = steps[:0]
+	for len(ops) > 0 || len(srs) > 0 {
+		if len(srs) == 0 || (len(ops) > 0 && r.Bool()) {
+			steps, ops = append(steps, ops[0]), ops[1:]
+		} else {
+			steps, srs = append(steps, srs[0]), srs[1:]
+		}
+	}
+	if len(steps) == 0 {
+		steps = []string{"o61"}
+	}
+	keys := []string{firstKey}
+	for m := r.Range(2, 5); m > 0; m-- {
+		keys = append(keys, lib.Hex(c05Key(r)))
+	}
+	return fmt.Sprintf("deploy %d %d %s %s", kgc, tc, strings.Join(steps, ","), strings.Join(keys, ","))
+}
+
+// ---- real-code side ------------------------------------------------------------------------------------------------
+
+// c05Rec collects what the fake workers are sent.
+type c05Rec struct {
+	mu     sync.Mutex
+	opReqs map[string][]*workerpb.DeployOperatorRequest
+	srReqs map[string][]*workerpb.DeploySourceRunnerRequest
+}
+
+type c05FakeOp struct {
+	proto.UnimplementedOperator
+	id  string
+	rec *c05Rec
+}
+
+func (o *c05FakeOp) ID() string   { return o.id }
+func (o *c05FakeOp) Host() string { return "h-" + o.id }
+func (o *c05FakeOp) Deploy(ctx context.Context, req *workerpb.DeployOperatorRequest) error {
+	o.rec.mu.Lock()
+	defer o.rec.mu.Unlock()
+	o.rec.opReqs[o.id] = append(o.rec.opReqs[o.id], req)
+	return nil
+}
+
+type c05FakeSR struct {
+	proto.UnimplementedSourceRunner
+	id  string
+	rec *c05Rec
+}
+
+func (s *c05FakeSR) ID() string   { return s.id }
+func (s *c05FakeSR) Host() string { return "h-" + s.id }
+func (s *c05FakeSR) Deploy(ctx context.Context, req *workerpb.DeploySourceRunnerRequest) error {
+	s.rec.mu.Lock()
+	defer s.rec.mu.Unlock()
+	s.rec.srReqs[s.id] = append(s.rec.srReqs[s.id], req)
+	return nil
+}
+
+// c05Sink is the operator client a real source runner is given for a node identity: it reports the identity's id
+// for every keyed event it is handed.
+type c05Sink struct {
+	proto.UnimplementedOperator
+	id  string
+	got chan string
+}
+
+func (o *c05Sink) ID() string { return o.id }
+func (o *c05Sink) HandleEventBatch(ctx context.Context, batch []*workerpb.Event) error {
+	for _, ev := range batch {
+		if ev.GetKeyedEvent() != nil {
+			o.got <- o.id
+		}
+	}
+	return nil
+}
+
+func c05IDs(ids []string) string {
+	h := make([]string, len(ids))
+	for i, id := range ids {
+		h[i] = lib.Hex([]byte(id))
+	}
+	return strings.Join(h, ",")
+}
+
+func c05NodeIDs(ns []*jobpb.NodeIdentity) string {
+	ids := make([]string, len(ns))
+	for i, n := range ns {
+		ids[i] = n.GetId()
+	}
+	return c05IDs(ids)
+}
+
+// c05Guard runs f with a recover and a timeout (the real code must neither take the harness down nor hang it).
+func c05Guard(f func() string) string {
+	done := make(chan string, 1)
+	go func() {
+		defer func() {
+			if r := recover(); r != nil {
+				done <- "panic"
+			}
+		}()
+		done <- f()
+	}()
+	select {
+	case s := <-done:
+		return s
+	case <-time.After(10 * time.Second):
+		return "timeout"
+	}
+}
+
+var c05DeploySeq struct {
+	sync.Mutex
+	n int
+}
+
+// c05Deploy: registrations → the real jobs.Registry.NewAssembly → the real Assembly.Deploy against recording fake
+// workers; then every recorded DeploySourceRunnerRequest is handled by a real SourceRunner and every recorded
+// DeployOperatorRequest by a real Operator carrying the receiver's id; every key is routed by each real runner and
+// offered to each real operator's ownership test (state entry and timer as that operator would encode them).
+func c05Deploy(kgc, tc int, steps []string, keys [][]byte) string {
+	slog.SetDefault(slog.New(slog.NewTextHandler(io.Discard, nil)))
+	c05DeploySeq.Lock()
+	c05DeploySeq.n++
+	seq := c05DeploySeq.n
+	c05DeploySeq.Unlock()
+
+	rec := &c05Rec{opReqs: map[string][]*workerpb.DeployOperatorRequest{}, srReqs: map[string][]*workerpb.DeploySourceRunnerRequest{}}
+	reg := jobs.NewRegistry(tc, jobs.NewLivenessTracker(clocks.NewFrozenClock(), time.Hour))
+	for _, st := range steps {
+		if len(st) < 1 {
+			continue
+		}
+		id := string(lib.UnHex(st[1:]))
+		switch st[0] {
+		case 'o':
+			reg.RegisterOperator(&c05FakeOp{id: id, rec: rec})
+		case 's':
+			reg.RegisterSourceRunner(&c05FakeSR{id: id, rec: rec})
+		case 'O':
+			reg.DeregisterOperator(&jobpb.NodeIdentity{Id: id})
+		case 'S':
+			reg.DeregisterSourceRunner(&jobpb.NodeIdentity{Id: id})
+		}
+	}
+	asm, err := reg.NewAssembly()
+	if err != nil {
+		if errors.Is(err, jobs.ErrNotEnoughResources) {
+			return "noassembly"
+		}
+		return "assembly-error"
+	}
+	cfg := &config.Config{
+		WorkerCount: tc, KeyGroupCount: kgc, WorkingStorageLocation: fmt.Sprintf("memory:///c05d-%d", seq),
+		Sources: []connectors.SourceConfig{embedded.SourceConfig{SplitCount: 1, BatchSize: 1}},
+	}
+	if r := c05Guard(func() string {
+		if err := asm.Deploy(cfg, &snapshotpb.JobCheckpoint{}); err != nil {
+			return "deploy-error"
+		}
+		return ""
+	}); r != "" {
+		return r
+	}
+	opIDs, srIDs := asm.OperatorIDs(), asm.SourceRunnerIDs()
+	rec.mu.Lock()
+	defer rec.mu.Unlock()
+
+	ctx, cancel := context.WithCancel(context.Background())
+	defer cancel()
+
+	// operators: what each was sent, and the real Operator built from it
+	realOps := make([]*operator.Operator, len(opIDs))
+	opParts := make([]string, len(opIDs))
+	for i, id := range opIDs {
+		reqs := rec.opReqs[id]
+		if len(reqs) != 1 {
+			opParts[i] = fmt.Sprintf("%s=x%d", lib.Hex([]byte(id)), len(reqs))
+			continue
+		}
+		req := reqs[0]
+		layout := c05Guard(func() string {
+			op := operator.NewOperator(operator.NewOperatorParams{
+				ID: id, Job: &proto.NoopJob{},
+				NeighborOperatorFactory: func(string, *jobpb.NodeIdentity) proto.Operator { return &proto.UnimplementedOperator{} },
+			})
+			if err := op.HandleDeploy(ctx, req, &embedded.RecordingSink{}); err != nil {
+				return "deploy-error"
+			}
+			own, all, _, _ := op.VerifKeyLayout(nil)
+			realOps[i] = op
+			return fmt.Sprintf("%d-%d/%d", own.Start, own.End, len(all))
+		})
+		opParts[i] = fmt.Sprintf("%s=%d:%s:%s:%s", lib.Hex([]byte(id)), req.KeyGroupCount, c05NodeIDs(req.Operators), c05IDs(req.SourceRunnerIds), layout)
+	}
+
+	// source runners: what each was sent, and the real SourceRunner built from it
+	type realSR struct {
+		sr  *sourcerunner.SourceRunner
+		got chan string
+	}
+	realSRs := make([]*realSR, len(srIDs))
+	srParts := make([]string, len(srIDs))
+	for i, id := range srIDs {
+		reqs := rec.srReqs[id]
+		if len(reqs) != 1 {
+			srParts[i] = fmt.Sprintf("%s=x%d", lib.Hex([]byte(id)), len(reqs))
+			continue
+		}
+		req := reqs[0]
+		srParts[i] = fmt.Sprintf("%s=%d:%s", lib.Hex([]byte(id)), req.KeyGroupCount, c05NodeIDs(req.Operators))
+		got := make(chan string, 8)
+		res := c05Guard(func() string {
+			sr := sourcerunner.New(sourcerunner.NewParams{
+				Host: "h", Job: proto.NoopJob{},
+				OperatorFactory: func(senderID string, node *jobpb.NodeIdentity) proto.Operator {
+					return &c05Sink{id: node.GetId(), got: got}
+				},
+				EventBatching: batching.EventBatcherParams{MaxSize: 1},
+			})
+			go sr.Start(ctx)
+			if err := sr.HandleDeploy(ctx, req); err != nil {
+				return "deploy-error"
+			}
+			sr.VerifSetWatermarkTicks(make(chan time.Time)) // no watermark traffic while keys are routed by hand
+			realSRs[i] = &realSR{sr: sr, got: got}
+			return ""
+		})
+		if res != "" {
+			srParts[i] += ":" + res
+		}
+	}
+
+	keyParts := make([]string, len(keys))
+	for ki, k := range keys {
+		tgts := make([]string, len(realSRs))
+		for i, rs := range realSRs {
+			if rs == nil {
+				tgts[i] = "panic"
+				continue
+			}
+			tgts[i] = c05Guard(func() string {
+				rs.sr.VerifRouteC05(k, &workerpb.Event{Event: &workerpb.Event_KeyedEvent{KeyedEvent: &handlerpb.KeyedEvent{Key: k}}})
+				select {
+				case id := <-rs.got:
+					return lib.Hex([]byte(id))
+				case <-time.After(5 * time.Second):
+					return "timeout"
+				}
+			})
+		}
+		var ownDB, ownTimer []string
+		for i, op := range realOps {
+			if op == nil {
+				continue
+			}
+			switch c05Guard(func() string {
+				_, _, a, b := op.VerifOwnsC05(k, "ns", []byte{7}, time.Unix(0, 123456789))
+				return fmt.Sprintf("%v%v", a, b)
+			}) {
+			case "truetrue":
+				ownDB, ownTimer = append(ownDB, opIDs[i]), append(ownTimer, opIDs[i])
+			case "truefalse":
+				ownDB = append(ownDB, opIDs[i])
+			case "falsetrue":
+				ownTimer = append(ownTimer, opIDs[i])
+			case "falsefalse":
+			default:
+				ownDB = append(ownDB, "!"+opIDs[i])
+			}
+		}
+		keyParts[ki] = fmt.Sprintf("%s=%s/%s/%s", lib.Hex(k), strings.Join(tgts, ","), c05IDs(ownDB), c05IDs(ownTimer))
+	}
+	return fmt.Sprintf("A%s/%s|O%s|S%s|K%s", c05IDs(opIDs), c05IDs(srIDs), strings.Join(opParts, ";"), strings.Join(srParts, ";"), strings.Join(keyParts, ";"))
 }
